@@ -45,6 +45,19 @@ theorem C06_pin_txidAssignments :
       ["txid++", "txid = id + 1", "txid++", "txid++", "txid = id + 1", "txid++", "txid++", "txid = id + 1", "txid++"] := by
   decide
 
+/-- F21 repair: the `updateTXTimestamp` calls of the listeners, in source order — one with the
+    unchanged software reading `&txt0` in front of every `continue` that ends an iteration after
+    `handleRequest` without a reply (IP: no cookie, failed write; SCION: path not reversible, no
+    cookie, failed write: `stepEv code | .unsent`), and the one after the send with `&txt1` -/
+theorem C06_pin_updateTxCalls :
+    Gen.Server.updateTxCalls_runIPServer =
+      ["updateTXTimestamp(clientID, rxt, &txt0)", "updateTXTimestamp(clientID, rxt, &txt0)",
+       "updateTXTimestamp(clientID, rxt, &txt1)"] ∧
+    Gen.Server.updateTxCalls_runSCIONServer =
+      ["updateTXTimestamp(clientID, rxt, &txt0)", "updateTXTimestamp(clientID, rxt, &txt0)",
+       "updateTXTimestamp(clientID, rxt, &txt0)", "updateTXTimestamp(clientID, rxt, &txt1)"] := by
+  decide
+
 /-- C03: no statement after a send reads the clock (the model's step after the write has no
     clock input) -/
 theorem C03_pin_noClockAfterSend :
